@@ -27,6 +27,7 @@ type CEnv struct {
 	pos      token.Pos // program point for scope lookup
 	oldNames map[string]bound
 	nq       int
+	qvars    []string // SMT names of the quantifier / sum binders in scope
 }
 
 var tInt = types.Typ[types.Int]
@@ -466,6 +467,7 @@ func (env *CEnv) evalCall(x *ast.CallExpr) (Value, types.Type) {
 				qv = append(qv, qn)
 				inner.names[v] = bound{IntV{qn}, tInt}
 			}
+			inner.qvars = append(append([]string(nil), env.qvars...), qv...)
 			var body string
 			c.inQuant++
 			defer func() { c.inQuant-- }()
@@ -574,6 +576,72 @@ func (env *CEnv) evalCall(x *ast.CallExpr) (Value, types.Type) {
 			}
 			name, _ := strconv.Unquote(lit.Value)
 			return IntV{c.heapGet(env.s, "X."+name, sInt)}, tInt
+		case "mapsum", "sumvisited":
+			// mapsum(m, k, e): the sum of e over the keys k of map m.   sumvisited(k, e): the sum of e over the keys visited so
+			// far by the map-range loop whose clause is being evaluated. Finite sums over sets (spec library block msum):
+			// the summand becomes an array (a function of the enclosing binders) defined pointwise.
+			var setTerm, nilGuard string
+			var kArg, eArg ast.Expr
+			if id.Name == "mapsum" {
+				if len(x.Args) != 3 {
+					cfail("mapsum(m, k, e)")
+				}
+				mv, mt := env.eval(x.Args[0])
+				u, ok := mt.Underlying().(*types.Map)
+				if !ok {
+					cfail("mapsum: not a map")
+				}
+				mref := asInt(mv)
+				setTerm = sel(c.heapGet(env.s, "D."+mapKeyName(u), sA2), mref)
+				nilGuard = eq(mref, "0")
+				kArg, eArg = x.Args[1], x.Args[2]
+			} else {
+				if len(x.Args) != 2 {
+					cfail("sumvisited(k, e)")
+				}
+				setTerm = c.heapGet(env.s, fmt.Sprintf("L.visited%d", c.curLoop), sA1)
+				nilGuard = "false"
+				kArg, eArg = x.Args[0], x.Args[1]
+			}
+			kid, ok := kArg.(*ast.Ident)
+			if !ok {
+				cfail("%s: bound variable expected", id.Name)
+			}
+			inner := *env
+			inner.names = map[string]bound{}
+			for k, v := range env.names {
+				inner.names[k] = v
+			}
+			c.nq++
+			qn := fmt.Sprintf("%s_q%d", kid.Name, c.nq)
+			inner.names[kid.Name] = bound{IntV{qn}, tInt}
+			inner.qvars = append(append([]string(nil), env.qvars...), qn)
+			c.inQuant++
+			bv, _ := inner.eval(eArg)
+			c.inQuant--
+			body := asInt(bv)
+			// canonical key: binder names replaced by positions
+			canon := body
+			for i, q := range inner.qvars {
+				canon = strings.ReplaceAll(canon, q, fmt.Sprintf("$%d", i))
+			}
+			if c.sumFuns == nil {
+				c.sumFuns = map[string]string{}
+			}
+			fn, seen := c.sumFuns[canon]
+			if !seen {
+				fn = fmt.Sprintf("sumfun~%d", len(c.sumFuns)+1)
+				c.sumFuns[canon] = fn
+				args := strings.TrimSpace(strings.Repeat("Int ", len(env.qvars)))
+				c.decls[fn] = "FUN (" + args + ") " + sA1
+				c.declOrder = append(c.declOrder, fn)
+			}
+			arr := fn
+			if len(env.qvars) > 0 {
+				arr = app(fn, env.qvars...)
+			}
+			env.s.assume(forall(inner.qvars, "(! "+eq(sel(arr, qn), body)+" :pattern ((select "+arr+" "+qn+")))"))
+			return IntV{ite(nilGuard, "0", app("msum", arr, setTerm))}, tInt
 		case "visited":
 			// visited(k): key k has been visited by the map-range loop whose clause is being evaluated
 			kv, _ := env.eval(x.Args[0])
@@ -684,8 +752,9 @@ func (env *CEnv) evalCall(x *ast.CallExpr) (Value, types.Type) {
 			iv, _ := env.eval(x.Args[1])
 			jv, _ := env.eval(x.Args[2])
 			return IntV{sel(sel(c.heapGet(env.s, "X."+name, sA2), asInt(iv)), asInt(jv))}, tInt
-		case "athead":
+		case "athead", "atentry":
 			// athead(n, e): e evaluated in the state at the head of the current iteration of loop n
+			// atentry(n, e): e evaluated in the state in which loop n was entered (before its first iteration)
 			lit, ok := x.Args[0].(*ast.BasicLit)
 			if !ok {
 				cfail("athead needs a loop ordinal or header text")
@@ -704,11 +773,14 @@ func (env *CEnv) evalCall(x *ast.CallExpr) (Value, types.Type) {
 				}
 			}
 			hs, ok := c.loopHeads[n]
+			if id.Name == "atentry" {
+				hs, ok = c.loopEntry[n]
+			}
 			if !ok {
 				if c.dry > 0 {
 					return env.eval(x.Args[1])
 				}
-				cfail("athead(%d): loop has no step clause or is not active", n)
+				cfail("%s(%d): loop has no clauses or is not active", id.Name, n)
 			}
 			tmpH := *hs
 			tmpH.assumes = env.s.assumes
